@@ -116,7 +116,7 @@ ConnFaultOk(e) ==
   THEN /\ e.r1 \in {"ErrorReadingResponseBody", "ErrorReadingFile"}
        /\ e.ws1 = "Shutdown"                                          \* bytes were sent: the write side is shut ...
        /\ e.r2 = "Disconnected" /\ e.ws2 = "Shutdown"                 \* ... nothing else can be written ...
-       /\ e.statusLines = 1 /\ e.firstCode = 200 /\ e.bodyIsPrefix    \* ... in particular no second status line
+       /\ e.statusLines = 1 /\ e.firstCode = e.code /\ e.bodyIsPrefix \* ... in particular no second status line
   ELSE /\ e.r1 = (IF e.what = "dup_header" THEN "DuplicateContentTypeHeader" ELSE "UnwritableResponse")
        /\ e.ws1 = "Response"                                          \* nothing was sent: a response is still owed ...
        /\ e.r2 = "Ok" /\ e.ws2 = "Shutdown"                           \* ... and one well-formed 500 goes out
